@@ -65,7 +65,13 @@ func init() {
 			if idx >= c05SetCases {
 				cfg := kmodel.AllConfigs[idx%len(kmodel.AllConfigs)]
 				w := map[string]int{"create": 8, "delete": 4, "update": 1, "addlinks": 5, "addlink": 3, "removelinks": 4, "removelink": 3, "setlinks": 6, "rcinc": 6, "rcdec": 5, "rcset": 4}
-				runHistory(c, r, histOpts{Prefix: "C05", Cfg: cfg, NTx: 40, MaxOps: 4, Hostile: true, Weights: w})
+				// every third history lets the two stores share id strings (an employee and a department with the same id)
+				var setup func(e *kmodel.Engine)
+				if idx%3 == 2 {
+					setup = sharedIds
+					c.Cover("id_universe", "shared-between-stores")
+				}
+				runHistory(c, r, histOpts{Prefix: "C05", Cfg: cfg, NTx: 40, MaxOps: 4, Hostile: true, Weights: w, Setup: setup})
 				return
 			}
 			side := kmodel.Emps
